@@ -34,15 +34,15 @@ def structure(tr) -> list:
 
 
 # ------------------------------------------------------------------ C04 / C05
-def track_partition(tr) -> list:
-    key = tr.features.tracklet_key
+def track_partition(tr, key=None) -> list:
+    key = tr.features.tracklet_key if key is None else key
     ident = {n: tr.graph.nodes[n].get(key) for n in tr.graph.nodes}
     m = models.partition_mismatch(models.segments(tr.graph), ident)
     return [("C04.partition", m)] if m else []
 
 
-def lineage_partition(tr) -> list:
-    key = tr.features.lineage_key
+def lineage_partition(tr, key=None) -> list:
+    key = tr.features.lineage_key if key is None else key
     ident = {n: tr.graph.nodes[n].get(key) for n in tr.graph.nodes}
     m = models.partition_mismatch(models.components(tr.graph), ident)
     return [("C05.partition", m)] if m else []
@@ -69,15 +69,17 @@ def frame_clause(pre_g: nx.DiGraph, pre_ids: dict, tr, key: str, named: set, pro
 
 
 # ------------------------------------------------------------------ C06
-def lookups(tr, which=("tracklet", "lineage")) -> list:
+def lookups(tr, which=("tracklet", "lineage"), keys=None) -> list:
+    """`keys`: (track id attribute, lineage id attribute or None) as the client knows them
+    to be managed; without it the object is asked."""
     ta = tr.track_annotator
     g = tr.graph
     out = []
     for name, cache, key in (
-        ("tracklet", ta.tracklet_id_to_nodes, tr.features.tracklet_key),
-        ("lineage", ta.lineage_id_to_nodes, tr.features.lineage_key),
+        ("tracklet", ta.tracklet_id_to_nodes, tr.features.tracklet_key if keys is None else keys[0]),
+        ("lineage", ta.lineage_id_to_nodes, tr.features.lineage_key if keys is None else keys[1]),
     ):
-        if name not in which or key is None or key not in tr.annotators.features:
+        if name not in which or key is None or (keys is None and key not in tr.annotators.features):
             continue
         scan = models.scan_groups(g, key)
         for k, v in cache.items():
@@ -86,14 +88,14 @@ def lookups(tr, which=("tracklet", "lineage")) -> list:
         for k in scan:
             if k not in cache:
                 out.append(("C06.lookup", f"{name} lookup misses id {k} carried by {sorted(scan[k])}"))
-    tkey = tr.features.tracklet_key
-    if tkey in tr.annotators.features and "tracklet" in which:
+    tkey = tr.features.tracklet_key if keys is None else keys[0]
+    if (keys is not None or tkey in tr.annotators.features) and "tracklet" in which:
         used = {d.get(tkey) for _, d in g.nodes(data=True)}
         nxt = tr.get_next_track_id()
         if nxt in used:
             out.append(("C06.next_id", f"next track id {nxt} is in use"))
-    lkey = tr.features.lineage_key
-    if lkey is not None and lkey in tr.annotators.features and "lineage" in which:
+    lkey = tr.features.lineage_key if keys is None else keys[1]
+    if lkey is not None and (keys is not None or lkey in tr.annotators.features) and "lineage" in which:
         used = {d.get(lkey) for _, d in g.nodes(data=True)}
         nxt = tr.get_next_lineage_id()
         if nxt in used:
